@@ -4,9 +4,7 @@
 //! **symbolic iteration order** (E6): "every hash seed" is a solver variable.
 use crate::verif_incrate::common::*;
 use super::*;
-use crate::counter::{Counter, IntCounter, IntCounterVec};
-use crate::gauge::Gauge;
-use crate::metrics::Opts;
+use crate::desc::Desc;
 use crate::proto::MetricType;
 
 fn same_pairs(a: &[proto::LabelPair], b: &[proto::LabelPair]) -> bool {
@@ -54,83 +52,118 @@ fn same_gather(g1: &[proto::MetricFamily], g2: &[proto::MetricFamily]) -> bool {
     true
 }
 
-/// Three single-metric collectors (counter "b", gauge "a", int counter "c"), registered in a
-/// symbolic order, collector-map iteration order symbolic: one family per name, strictly
-/// increasing names, declared help and type, real values.
-#[cfg_attr(kani, kani::proof, kani::unwind(6),
-    kani::stub(std::fmt::format, fmt_stub),
-    kani::stub(crate::desc::Desc::new, cheap_desc_fresh_ids))]
+/// a collector that returns literal families (fresh from constants, so that every length stays
+/// concrete for the model checker); `gather`'s own logic — merge by name, drop empty families,
+/// sort samples, prefix, common labels — is the subject, and it is driven unchanged
+struct Lit {
+    desc: Desc,
+    fams: fn(u8, u8) -> Vec<proto::MetricFamily>,
+    x: u8,
+    y: u8,
+}
+impl Collector for Lit {
+    fn desc(&self) -> Vec<&Desc> { vec![&self.desc] }
+    fn collect(&self) -> Vec<proto::MetricFamily> { (self.fams)(self.x, self.y) }
+}
+fn d(name: &str, id: u64) -> Desc {
+    Desc { fq_name: String::from(name), help: String::from("h"), const_label_pairs: Vec::new(), variable_labels: Vec::new(), id, dim_hash: 7 }
+}
+fn lp(n: &str, v: &str) -> proto::LabelPair {
+    let mut l = proto::LabelPair::default();
+    l.set_name(String::from(n));
+    l.set_value(String::from(v));
+    l
+}
+fn counter_metric(labels: Vec<proto::LabelPair>, v: u8) -> proto::Metric {
+    let mut m = proto::Metric::from_label(labels);
+    let mut c = proto::Counter::default();
+    c.set_value(v as f64);
+    m.set_counter(c);
+    m
+}
+fn gauge_metric(labels: Vec<proto::LabelPair>, v: u8) -> proto::Metric {
+    let mut m = proto::Metric::from_label(labels);
+    let mut g = proto::Gauge::default();
+    g.set_value(v as f64);
+    m.set_gauge(g);
+    m
+}
+fn fam(name: &str, help: &str, ty: MetricType, ms: Vec<proto::Metric>) -> proto::MetricFamily {
+    let mut mf = proto::MetricFamily::default();
+    mf.set_name(String::from(name));
+    mf.set_help(String::from(help));
+    mf.set_field_type(ty);
+    mf.set_metric(ms);
+    mf
+}
+fn fam_b(x: u8, _y: u8) -> Vec<proto::MetricFamily> { vec![fam("b", "hb", MetricType::COUNTER, vec![counter_metric(Vec::new(), x)])] }
+fn fam_a(x: u8, _y: u8) -> Vec<proto::MetricFamily> { vec![fam("a", "ha", MetricType::GAUGE, vec![gauge_metric(Vec::new(), x)])] }
+fn fam_c_empty(_x: u8, _y: u8) -> Vec<proto::MetricFamily> { vec![fam("c", "hc", MetricType::COUNTER, Vec::new())] }
+/// a vector-like collector: one family "v" with two children, emitted in the order (l=2, l=1)
+fn fam_v21(x: u8, y: u8) -> Vec<proto::MetricFamily> {
+    vec![fam("v", "hv", MetricType::COUNTER, vec![counter_metric(vec![lp("l", "2")], y), counter_metric(vec![lp("l", "1")], x)])]
+}
+fn fam_v3(x: u8, _y: u8) -> Vec<proto::MetricFamily> {
+    vec![fam("v", "hv", MetricType::COUNTER, vec![counter_metric(vec![lp("l", "3")], x)])]
+}
+fn fam_k(x: u8, _y: u8) -> Vec<proto::MetricFamily> {
+    vec![fam("a", "ha", MetricType::COUNTER, vec![counter_metric(vec![lp("k", "v")], x)])]
+}
+fn fam_a_counter_l1(x: u8, _y: u8) -> Vec<proto::MetricFamily> {
+    vec![fam("a", "h", MetricType::COUNTER, vec![counter_metric(vec![lp("l", "1")], x)])]
+}
+fn fam_a_gauge_l2(x: u8, _y: u8) -> Vec<proto::MetricFamily> {
+    vec![fam("a", "h", MetricType::GAUGE, vec![gauge_metric(vec![lp("l", "2")], x)])]
+}
+
+/// Three collectors (counter "b", gauge "a", a vector "c" without children), any iteration order
+/// of the collector map: one family per name with samples, strictly increasing names, declared
+/// help and type, real values; the empty family is dropped.
+#[cfg_attr(kani, kani::proof, kani::unwind(6), kani::stub(std::fmt::format, fmt_stub))]
 pub fn c07_families_sorted_complete_any_order() {
     crate::verif_map::set_symbolic_order(true);
-    let b = Counter::with_opts(Opts::new("b", "hb")).unwrap();
-    let a = Gauge::with_opts(Opts::new("a", "ha")).unwrap();
-    let c = IntCounter::with_opts(Opts::new("c", "hc")).unwrap();
-    let (x, y, z) = (any_u8(), any_u8(), any_u8());
-    b.inc_by(x as f64);
-    a.set(y as f64);
-    c.inc_by(z as u64);
+    let (x, y) = (any_u8(), any_u8());
     let mut core = RegistryCore::default();
-    let ord = any_u8();
-    assume(ord < 3);
-    if ord == 0 {
-        core.register(Box::new(b.clone())).unwrap();
-        core.register(Box::new(a.clone())).unwrap();
-        core.register(Box::new(c.clone())).unwrap();
-    } else if ord == 1 {
-        core.register(Box::new(c.clone())).unwrap();
-        core.register(Box::new(b.clone())).unwrap();
-        core.register(Box::new(a.clone())).unwrap();
-    } else {
-        core.register(Box::new(a.clone())).unwrap();
-        core.register(Box::new(c.clone())).unwrap();
-        core.register(Box::new(b.clone())).unwrap();
-    }
+    core.register(Box::new(Lit { desc: d("b", 1), fams: fam_b, x, y: 0 })).unwrap();
+    core.register(Box::new(Lit { desc: d("a", 2), fams: fam_a, x: y, y: 0 })).unwrap();
+    core.register(Box::new(Lit { desc: d("c", 4), fams: fam_c_empty, x: 0, y: 0 })).unwrap();
     let g = core.gather();
-    assert!(g.len() == 3, "C07 one family per registered metric name with samples");
-    assert!(g[0].name() == "a" && g[1].name() == "b" && g[2].name() == "c", "C07 families in strictly increasing name order");
+    assert!(g.len() == 2, "C07 one family per registered metric name that currently has samples");
+    assert!(g[0].name() == "a" && g[1].name() == "b", "C07 families in strictly increasing name order");
     assert!(g[0].help() == "ha" && g[0].get_field_type() == MetricType::GAUGE, "C07 declared help and type");
     assert!(g[1].help() == "hb" && g[1].get_field_type() == MetricType::COUNTER, "C07 declared help and type");
-    assert!(g[2].help() == "hc" && g[2].get_field_type() == MetricType::COUNTER, "C07 declared help and type");
     assert!(g[0].get_metric().len() == 1 && g[0].get_metric()[0].get_gauge().get_value() == y as f64, "C07 every sample exactly once with its value");
     assert!(g[1].get_metric().len() == 1 && g[1].get_metric()[0].get_counter().get_value() == x as f64, "C07 every sample exactly once with its value");
-    assert!(g[2].get_metric().len() == 1 && g[2].get_metric()[0].get_counter().get_value() == z as f64, "C07 every sample exactly once with its value");
     std::mem::forget(g);
     std::mem::forget(core);
 }
 
 /// Registry prefix and two common labels: applied to every family and sample, and the result does
 /// not depend on the iteration order of the label map (gathered twice, the order re-drawn).
-#[cfg_attr(kani, kani::proof, kani::unwind(6),
-    kani::stub(crate::desc::Desc::new, cheap_desc_fresh_ids))]
+#[cfg_attr(kani, kani::proof, kani::unwind(6))]
 pub fn c07_prefix_and_common_labels_deterministic() {
     crate::verif_map::set_symbolic_order(true);
-    let a = Counter::with_opts(Opts::new("a", "ha").const_label("k", "v")).unwrap();
-    a.inc_by(2.0);
+    let x = any_u8();
     let mut core = RegistryCore::default();
     let mut labels = HashMap::new();
-    if any_bool() {
-        labels.insert(String::from("l1"), String::from("1"));
-        labels.insert(String::from("l2"), String::from("2"));
-    } else {
-        labels.insert(String::from("l2"), String::from("2"));
-        labels.insert(String::from("l1"), String::from("1"));
-    }
+    labels.insert(String::from("l1"), String::from("1"));
+    labels.insert(String::from("l2"), String::from("2"));
     core.labels = Some(labels);
     core.prefix = Some(String::from("p"));
-    core.register(Box::new(a.clone())).unwrap();
+    core.register(Box::new(Lit { desc: d("a", 1), fams: fam_k, x, y: 0 })).unwrap();
     let g1 = core.gather();
     if let Some(l) = core.labels.as_mut() {
         l.redraw_order();
     }
     let g2 = core.gather();
     assert!(g1.len() == 1 && g1[0].name() == "p_a", "C07 registry prefix applied to every family");
-    let lp = g1[0].get_metric()[0].get_label();
-    assert!(lp.len() == 3, "C07 common labels applied to every sample");
+    let lps = g1[0].get_metric()[0].get_label();
+    assert!(lps.len() == 3, "C07 common labels applied to every sample");
     let has = |n: &str, v: &str| {
         let mut i = 0;
         let mut f = false;
-        while i < lp.len() {
-            if lp[i].name() == n && lp[i].value() == v { f = true; }
+        while i < lps.len() {
+            if lps[i].name() == n && lps[i].value() == v { f = true; }
             i += 1;
         }
         f
@@ -142,54 +175,36 @@ pub fn c07_prefix_and_common_labels_deterministic() {
     std::mem::forget(core);
 }
 
-/// Two same-kind collectors under one name (distinct const-label values): merged into one
-/// family, samples ordered by label values, independent of registration / iteration order.
-#[cfg_attr(kani, kani::proof, kani::unwind(6),
-    kani::stub(std::fmt::format, fmt_stub),
-    kani::stub(crate::desc::Desc::new, cheap_desc_fresh_ids))]
+/// Two collectors under one name ("v": children l=2,l=1 and l=3), any iteration order: merged
+/// into one family, samples ordered lexicographically by label values, each exactly once.
+#[cfg_attr(kani, kani::proof, kani::unwind(6), kani::stub(std::fmt::format, fmt_stub))]
 pub fn c07_same_name_samples_sorted_by_label_values() {
     crate::verif_map::set_symbolic_order(true);
-    let c1 = Counter::with_opts(Opts::new("a", "h").const_label("l", "1")).unwrap();
-    let c2 = Counter::with_opts(Opts::new("a", "h").const_label("l", "2")).unwrap();
-    let (x, y) = (any_u8(), any_u8());
-    assume(x != 0 && y != 0);
-    c1.inc_by(x as f64);
-    c2.inc_by(y as f64);
+    let (x, y, z) = (any_u8(), any_u8(), any_u8());
     let mut core = RegistryCore::default();
-    if any_bool() {
-        core.register(Box::new(c1.clone())).unwrap();
-        core.register(Box::new(c2.clone())).unwrap();
-    } else {
-        core.register(Box::new(c2.clone())).unwrap();
-        core.register(Box::new(c1.clone())).unwrap();
-    }
+    core.register(Box::new(Lit { desc: d("v", 1), fams: fam_v21, x, y })).unwrap();
+    core.register(Box::new(Lit { desc: d("v", 2), fams: fam_v3, x: z, y: 0 })).unwrap();
     let g = core.gather();
-    assert!(g.len() == 1 && g[0].get_field_type() == MetricType::COUNTER, "C07/C14 one family of the declared type");
+    assert!(g.len() == 1 && g[0].get_field_type() == MetricType::COUNTER, "C07 one family of the declared type");
     let ms = g[0].get_metric();
-    assert!(ms.len() == 2, "C07 every sample of every collector registered under the name exactly once");
-    assert!(ms[0].get_label()[0].value() == "1" && ms[1].get_label()[0].value() == "2", "C07 samples ordered lexicographically by label values");
-    assert!(ms[0].get_counter().get_value() == x as f64 && ms[1].get_counter().get_value() == y as f64, "C14 every sample carries its real value under the family's type");
+    assert!(ms.len() == 3, "C07 every sample of every collector registered under the name exactly once");
+    assert!(ms[0].get_label()[0].value() == "1" && ms[1].get_label()[0].value() == "2" && ms[2].get_label()[0].value() == "3", "C07 samples ordered lexicographically by label values");
+    assert!(ms[0].get_counter().get_value() == x as f64 && ms[1].get_counter().get_value() == y as f64 && ms[2].get_counter().get_value() == z as f64, "C07 every sample carries its value");
     std::mem::forget(g);
     std::mem::forget(core);
 }
 
 /// C14: a counter and a gauge that share name, help and label names but differ in const-label
-/// values are both admitted. Every sample of the gathered family must carry a value of the
-/// family's declared type, and the declared type must not depend on iteration order.
-#[cfg_attr(kani, kani::proof, kani::unwind(6),
-    kani::stub(std::fmt::format, fmt_stub),
-    kani::stub(crate::desc::Desc::new, cheap_desc_fresh_ids))]
+/// values are both admitted (ids differ, dimension equal). Every sample of the gathered family
+/// must carry a value of the family's declared type, whatever the iteration order.
+#[cfg_attr(kani, kani::proof, kani::unwind(6), kani::stub(std::fmt::format, fmt_stub))]
 pub fn c14_counter_and_gauge_under_one_name() {
     crate::verif_map::set_symbolic_order(true);
-    let c = Counter::with_opts(Opts::new("a", "h").const_label("l", "1")).unwrap();
-    let g_ = Gauge::with_opts(Opts::new("a", "h").const_label("l", "2")).unwrap();
     let (x, y) = (any_u8(), any_u8());
     assume(x != 0 && y != 0);
-    c.inc_by(x as f64);
-    g_.set(y as f64);
     let mut core = RegistryCore::default();
-    let r1 = core.register(Box::new(c.clone()));
-    let r2 = core.register(Box::new(g_.clone()));
+    let r1 = core.register(Box::new(Lit { desc: d("a", 1), fams: fam_a_counter_l1, x, y: 0 }));
+    let r2 = core.register(Box::new(Lit { desc: d("a", 2), fams: fam_a_gauge_l2, x: y, y: 0 }));
     if r1.is_ok() && r2.is_ok() {
         let g = core.gather();
         let mut i = 0;
